@@ -325,6 +325,7 @@ func runC03(c *Ctx) {
 	c.compareBatch(cases)
 	c.c03Overlaps()
 	c.c03Merges(n)
+	c.overlapMergeProbe("C03")
 }
 
 // overlapping / nested merges: oracle only (anchor value, clearing, disjointness)
